@@ -148,6 +148,18 @@ def run(ctx):
     ctx.sample["epsilon"] = eps
     target = min(target, len(members))
     step = LexicaseSelection(epsilon=eps)
+    if H.draw(3) == 2:
+        # F13 (history): the same step object has served ANOTHER problem before (same number of cases, opposite directions, other
+        # individuals); nothing of that may show in this selection
+        other_mo = MultiObjectiveProblem([not m for m in mins], lambda p: list(vectors[p.v % len(vectors)]))
+        ctx._keepalive = other_mo
+        rnd0 = SimRandom(ctx, "uniform", name="history", log=False)
+        try:
+            list(step.apply(other_mo, SequentialEvaluator(), rep, rnd0, [Individual(100 + i, rep) for i in range(3)], 2, 0))
+        except Exception:
+            pass
+        ctx.faults["carry_over"] += 1
+        ctx.stat("history:step-served-another-problem")
     gen = step.apply(problem, evaluator, rep, rnd, list(members), target, 1)
     remaining = list(members)
     pulled = 0
